@@ -27,7 +27,7 @@ PARTIAL = ["extra_validation (nonlinsolve) is not exercised"]
 
 KINDS_UI = ["K1", "K2", "K3", "K4", "K5", "K6"]
 KINDS_CAL = ["K7", "K8", "K9"]
-KINDS_EKF = ["K10", "K11a", "K11b", "K11c", "K12", "K13", "K14", "K15", "K16", "K17", "K18"]
+KINDS_EKF = ["K10", "K10b", "K11a", "K11b", "K11c", "K12", "K13", "K14", "K15", "K16", "K17", "K18"]
 
 
 class Spec:
@@ -49,7 +49,7 @@ class Spec:
         return {
             "state": self.state, "control": self.control, "calibration": self.calibration,
             "updateKeys": list(self.update), "calKeys": list(self.calmap),
-            "noise": [[k, n, core.frac_str(__import__("fractions").Fraction(v))] for k, n, v in self.noise],
+            "noise": [["sym" if k == "sym" else "other", n, core.frac_str(__import__("fractions").Fraction(v))] for k, n, v in self.noise],
             "sensors": [{"key": k, "readings": [[r, sorted(s.name for s in sympy.sympify(e).free_symbols)] for r, e in rd.items()]}
                         for k, rd in self.sensors.items()],
             "sensorNoise": [[k, list(rd)] for k, rd in self.sensor_noise.items()],
@@ -75,7 +75,11 @@ class Spec:
     def ekf_args(self):
         noise = {}
         for kind, name, v in self.noise:
-            noise[Symbol(name) if kind == "sym" else name] = v
+            if kind == "pair":
+                a, b = name.split(",")
+                noise[(Symbol(a), Symbol(b))] = v
+            else:
+                noise[Symbol(name) if kind == "sym" else name] = v
         return dict(process_noise=noise,
                     sensor_models={k: {self.rk(r): e for r, e in rd.items()} for k, rd in self.sensors.items()},
                     sensor_noises={k: {self.rk(r): v for r, v in rd.items()} for k, rd in self.sensor_noise.items()},
@@ -112,6 +116,13 @@ def inject(rng, spec, kind, pos=None):
             k = pick(sorted(s.calmap)); s.calmap.pop(k); s.calmap[fresh(rng, s)] = 1.0
         elif kind == "K10":
             s.noise.remove(pick(s.noise))
+        elif kind == "K10b":
+            # the entry of one control is missing; an off-diagonal (pair-keyed) entry stands in its place, so the COUNT is right
+            if len(s.control) < 2:
+                return None
+            e = pick(s.noise)
+            other = [c for c in s.control if c != e[1]][0]
+            s.noise[s.noise.index(e)] = ("pair", f"{other},{e[1]}", 0.0)
         elif kind == "K11a":
             s.noise.append(("sym", pick(s.state), 0.5))
         elif kind == "K11b":
@@ -142,7 +153,7 @@ def inject(rng, spec, kind, pos=None):
 def positions(spec, kind):
     n = {"K1": len(spec.state), "K2": len(spec.state), "K3": len(spec.control), "K4": len(spec.update), "K6": len(spec.update),
          "K7": len(spec.calmap), "K9": len(spec.calmap), "K10": len(spec.noise), "K11a": len(spec.state), "K11c": len(spec.noise),
-         "K12": len(spec.noise), "K13": len(spec.sensors), "K14": len(spec.sensors), "K15": len(spec.sensor_noise),
+         "K12": len(spec.noise), "K10b": len(spec.noise), "K13": len(spec.sensors), "K14": len(spec.sensors), "K15": len(spec.sensor_noise),
          "K17": len(spec.sensor_noise), "K18": len(spec.sensor_noise)}.get(kind, 1)
     return range(max(n, 0))
 
@@ -156,15 +167,21 @@ def attempt(fn):
         return "refused:" + type(e).__name__
 
 
-def run_entry_points(ctx, spec, which, tag):
-    """-> {entry point: 'accepted' | 'refused:<kind>'}"""
+def run_entry_points(ctx, spec, which, tag, shared=None):
+    """-> {entry point: 'accepted' | 'refused:<kind>'}. `shared`: a dict carrying the ui.Model object of the valid base
+    definition, re-used for faults that only touch the other arguments (a model object is normally compiled many times)"""
     from formak import cpp, python
     res = {}
     container = ctx.rng.choice(["set", "list"])
     holder = {}
 
     def mk():
-        holder["m"] = spec.ui_model(container)
+        if shared is not None and which in ("compile", "ekf") and "m" in shared:
+            holder["m"] = shared["m"]
+        else:
+            holder["m"] = spec.ui_model(container)
+            if shared is not None and which == "all":
+                shared["m"] = holder["m"]
     res["ui"] = attempt(mk)
     if res["ui"] != "accepted" or which == "ui":
         return res
@@ -235,9 +252,10 @@ def run(ctx):
                 f = inject(ctx.rng, f, k2) if f is not None else None
                 if f is not None:
                     todo.append((f"{k1}+{k2}", None, f, "all"))
+        shared = {}
         for kind, pos, spec, which in todo:
             serial += 1
-            res = run_entry_points(ctx, spec, which, serial)
+            res = run_entry_points(ctx, spec, which, serial, shared if (kind == "valid" or serial % 2 == 0) else None)
             case = {"fault": kind, "position": pos, "def": spec.describe()}
             idx = drv.add({"op": "accept", "def": spec.vdef()})
             pending.append((idx, res, kind, case, spec.reading_syms, max(len(rd) for rd in spec.sensors.values()) if spec.sensors else 0))
